@@ -44,13 +44,16 @@ META = {
                   "the exact token list pronoun + form); for every declension table and N/A/Adv entry, every pair produced "
                   "by the model of genExp/expandDeclension realizes (model of Terminal.decline, C02) to that form when the "
                   "table's rows are distinguishable by the inferred options (DistinctRows, proved by decide +kernel for "
-                  "every generated table with the default constructor state); every non-null cell of every row is listed "
-                  "(completeness; refuted for intransitive verbs conjugated with être, partial otherwise). Tie: both real "
+                  "every generated table of the class with the standard constructor states, four French (table, gender) "
+                  "exceptions stated explicitly and absent from the lexicon); for every d*/pn* table the word that is the "
+                  "table's ending (le, mon, moi, me ...) expands soundly (decide +kernel); every non-null cell of every row "
+                  "is listed (completeness; refuted for intransitive verbs conjugated with être, partial otherwise; "
+                  "declension: every form listed except the plural of an uncountable English noun). Tie: both real "
                   "maps are enumerated completely (thorough tier) and compared pair for pair with the model; every listed "
                   "expression is realized by the real library; every table cell is asked of the real realizer.",
     "level_note": "Trusted: Lean kernel; translators conj/decl; correspondence (differential, complete in the thorough "
-                  "tier). Determiners and pronouns (closed classes, every entry enumerated on every run) are covered by the "
-                  "executed model and the oracle, not by an unbounded theorem. The expression's option list is read from "
+                  "tier). Determiners and pronouns: kernel theorem on the shipped tables with the table's ending as lemma; "
+                  "entries with pe/g/n of their own are covered by the executed model and the oracle only. The expression's option list is read from "
                   "the library's own `optSource` record.",
     "rule": "one evaluation = one (form, expression) pair of a real map: compared with the model's pair, realized by the "
             "real library and by the model; plus one per table cell asked of the realizer (completeness); non-trivial = "
@@ -351,7 +354,7 @@ def work(args):
     answers = core.run_driver(lines, exe)
     res = {"lang": lang, "t_model": time.time() - t0, "n_pairs": 0, "n_cells": 0, "n_derivable": 0, "model": [],
            "diffs": [], "ndiffs": 0, "fails": {}, "driver_errors": [], "wf_bad": [], "nontrivial": set(), "dist": {},
-           "samples": [], "n_refl": 0}
+           "samples": [], "n_refl": 0, "n_info": 0}
     m = D.maps[lang]
     canon = D.canon[lang]
 
@@ -378,8 +381,10 @@ def work(args):
             diff({"lang": lang, "lemma": lemma}, {"err": ans["err"]}, {"pairs": len(D.by_lemma[lang].get(lemma, []))})
             res["model"].append((lemma, None))
             continue
-        if ans["wf"]:
-            res["wf_bad"].append([lang, lemma, ans["wf"]])
+        bad = [x for x in ans["wf"] if not x.startswith("info:")]
+        if bad:
+            res["wf_bad"].append([lang, lemma, bad])
+        res["n_info"] += len(ans["wf"]) - len(bad)
         mpairs = ans["pairs"]
         res["model"].append((lemma, [(p[0], p[1], json.dumps(p[2], ensure_ascii=False)) for p in mpairs]))
         # model realization of each expression, by (form, pos, opts)
@@ -541,7 +546,7 @@ def run(ctx, deep=False):
     wall = time.time() - t0
     fails = {}
     dist = {}
-    tot = {"pairs": 0, "cells": 0, "derivable": 0, "ndiffs": 0, "nontrivial": 0, "refl": 0}
+    tot = {"pairs": 0, "cells": 0, "derivable": 0, "ndiffs": 0, "nontrivial": 0, "refl": 0, "info": 0}
     wf_bad = []
     model_by_lemma = {"en": {}, "fr": {}}
     for r in results:
@@ -553,6 +558,7 @@ def run(ctx, deep=False):
         tot["ndiffs"] += r["ndiffs"]
         tot["nontrivial"] += r["nontrivial"]
         tot["refl"] += r["n_refl"]
+        tot["info"] += r["n_info"]
         wf_bad += r["wf_bad"]
         for lemma, pairs in r["model"]:
             model_by_lemma[r["lang"]][lemma] = pairs
@@ -595,7 +601,12 @@ def run(ctx, deep=False):
     ctx.notes["sweep_wall_s"] = round(wall, 1)
     ctx.notes["total_wall_s"] = round(time.time() - t00, 1)
     ctx.notes["distribution(lang,pos,outcome)"] = dict(sorted(dist.items()))
+    # entries that fail a decidable hypothesis of the C18 theorems (the theorems say nothing about them; the
+    # enumeration above still covers them), and entries whose constructor state is not a standard one
     ctx.notes["hypotheses_not_met"] = {"entries": len(wf_bad), "first": wf_bad[:40]}
+    ctx.notes["entries_with_non_standard_constructor_state"] = tot["info"]
+    if w.get("bad"):
+        ctx.proof_failures.append({"theorem": "tbl-witness", "msg": "table elements failing a _tbl theorem: %r" % w["bad"][:10]})
     ctx.notes["failing_signatures"] = {s: f[2] for s, f in sorted(fails.items())}
     if ctx.tier == "thorough" or deep:
         ctx.exhaustive = True
